@@ -17,7 +17,7 @@ sed -i "s#path = \"/repo\"#path = \"$W/repo\"#" "$W/verif/harness/Cargo.toml"
 git -C "$W/repo" apply "$patch" || { echo "patch does not apply"; exit 2; }
 cd "$W/verif"
 for prop in "$@"; do
-  log=$W/$(basename $(dirname "$patch"))-$prop.log
+  log=$W/$(basename $(dirname $(dirname "$patch")))-$(basename $(dirname "$patch"))-$prop.log
   ./check "$prop" --tier quick > "$log" 2>&1; rc=$?
   v=$(grep -c '^VIOLATION' "$log"); nfi=$(grep -c 'no-failing-input-found' "$log")
   st=CAUGHT; if [ "$rc" -eq 0 ] || [ "$v" -eq 0 ]; then st=MISSED; elif [ "$nfi" -gt 0 ]; then st=CAUGHT-NO-INPUT; fi
